@@ -347,3 +347,34 @@ def backslice(body, locals_, depth=40):
             todo += operand_locals_of_rv(s['rv'])
         # call destinations with projections
     return seen
+
+
+def dominating_discriminants(body, bb):
+    """[(place, pty, taken_value)] for dominating switches on an enum discriminant whose taken edge dominates bb"""
+    out = []
+    dom = body.dominators().get(bb, set())
+    for d in dom:
+        if d == bb:
+            continue
+        t = body.term(d)
+        if t['k'] != 'switch':
+            continue
+        dl = op_local(t['discr'])
+        src = None
+        for kind, dbb, didx, x in body.defs().get(dl, []):
+            if kind == 'stmt' and x['rv']['k'] == 'discr':
+                pl = x['rv']['place']
+                # discriminant read through a reference local: resolve `(*_r)` with `_r = &P` to P
+                if pl['p'] and pl['p'][0] == '*':
+                    rd = body.defs().get(pl['l'], [])
+                    if len(rd) == 1 and rd[0][0] == 'stmt' and rd[0][3]['rv']['k'] == 'ref':
+                        base = rd[0][3]['rv']['place']
+                        pl = {'l': base['l'], 'p': list(base['p']) + list(pl['p'][1:])}
+                src = (pl, x['rv']['pty'])
+        if src is None:
+            continue
+        succs = [(v, x) for v, x in t['targets']] + [('otherwise', t['otherwise'])]
+        taken = [v for v, x in succs if dominates(body, x, bb) and len([1 for _, y in succs if y == x]) == 1]
+        if len(taken) == 1:
+            out.append((src[0], src[1], taken[0]))
+    return out
